@@ -7,6 +7,7 @@ import Liquid.Std
 import Liquid.Call
 import Liquid.Filters.Num
 import Liquid.Filters.Str
+import Liquid.Compare
 /-!
 # Line-protocol driver (DESIGN §5.1): one case per line in, one canonical result line out.
 -/
@@ -147,4 +148,8 @@ def runCase (line : String) : String :=
   | "strf" :: name :: recv :: args => StrF.runStrf name recv args
   | "strfv" :: name :: recv :: args => StrF.runStrfv name recv args
   | ["strfsj", recv, sep] => StrF.runStrfsj recv sep
+  | ["rel", forms, a, b] => Cmp.runPair Cmp.relOps forms a b
+  | ["con", forms, a, b] => Cmp.runPair [.contains] forms a b
+  | ["tru", form, a] => Cmp.runTruthy form a
+  | "expr" :: e :: vals => Cmp.runExpr e vals
   | _ => "bad-op"
